@@ -58,6 +58,7 @@ class Contract:
         self.ghost_init = {}        # ghost variables (specification-only state) and their initial values
         self.ghost_updates = []     # (statement text, [(ghost, expr)]) executed just before that statement
         self.nofacts = set()        # side facts of these spec functions are NOT assumed (used to prove the facts themselves)
+        self.alloc_bound = None     # input-size measure for allocation obligations
         self.opaque = set()         # spec functions kept uninterpreted (no definitional unfolding) in this function's VCs
         self.forget = set()         # callee postconditions mentioning these spec functions are not assumed (coarser, faster)
         self.local_types = {}       # declared types of local containers the engine cannot track (lists built in loops)
@@ -412,6 +413,8 @@ class Registry:
                 elif n == 'nofacts':
                     for x in call.args:
                         c.nofacts.add(ast.literal_eval(x))
+                elif n == 'alloc_bound':
+                    c.alloc_bound = call.args[0]
                 elif n == 'opaque':
                     for x in call.args:
                         c.opaque.add(ast.literal_eval(x))
